@@ -64,6 +64,12 @@ func (p *Program) VerifyFunc(fc *FuncContract) (res *FuncResult) {
 		res.Err = fmt.Errorf("function %s not found in the loaded program", fc.Name)
 		return
 	}
+	for name := range fc.InlineCallees {
+		if p.Funcs[name] == nil {
+			res.Err = fmt.Errorf("%s:%d: inlinecall names an unknown function %s", fc.File, fc.Line, name)
+			return
+		}
+	}
 	x := newExec(p, fc)
 	res.X = x
 	defer func() {
@@ -212,6 +218,12 @@ func (p *Program) VerifyLemma(fc *FuncContract) (res *FuncResult) {
 		fc.Model = "real"
 	}
 	res.FloatMod = fc.Model
+	for name := range fc.InlineCallees {
+		if p.Funcs[name] == nil {
+			res.Err = fmt.Errorf("%s:%d: inlinecall names an unknown function %s", fc.File, fc.Line, name)
+			return
+		}
+	}
 	x := newExec(p, fc)
 	res.X = x
 	defer func() {
